@@ -83,6 +83,10 @@ mod verif_c19 {
     rep!(c19_rep_curdir_then_parent, "x:/./../p");
     rep!(c19_rep_curdir_empty_parent, "x:/.//../p");
     rep!(c19_rep_balanced_then_parent, "x:/a/./../../p");
+    // the namespace itself / only empty and '.' segments: the path is the mapped directory, nothing beside it
+    rep!(c19_rep_namespace_itself, "x:/");
+    rep!(c19_rep_only_dot, "x:/./");
+    rep!(c19_rep_namespace_fragment, "x:/#f");
     // percent-encoded dots and slashes: whatever the loader does with them, the path opened stays inside
     rep!(c19_rep_pct_dotdot, "x:/%2e%2e/p");
     rep!(c19_rep_pct_mixed_dotdot, "x:/.%2E/p");
